@@ -1,1 +1,170 @@
-// harnesses for unit trace (mounted under cfg(kani) by the hook in /repo)
+//! K1 (part 2) + K6 — tarpc/src/trace.rs: 128-bit id codec, OpenTelemetry id conversions,
+//! child-context derivation. Mounted as `crate::trace::verif_kani` under cfg(kani).
+use super::*;
+use serde::de::{self, DeserializeSeed, Deserializer, SeqAccess, Visitor};
+use serde::ser::{self, Impossible, SerializeTuple, Serializer};
+use std::fmt;
+
+#[derive(Debug)]
+pub struct E;
+impl fmt::Display for E {
+    fn fmt(&self, _: &mut fmt::Formatter) -> fmt::Result {
+        Ok(())
+    }
+}
+impl std::error::Error for E {}
+impl ser::Error for E {
+    fn custom<T: fmt::Display>(_: T) -> Self {
+        E
+    }
+}
+impl de::Error for E {
+    fn custom<T: fmt::Display>(_: T) -> Self {
+        E
+    }
+}
+
+/// records a fixed-size byte tuple ([u8; 16] serializes as a 16-tuple of u8)
+pub struct RecBytes;
+pub struct TupRec {
+    bytes: [u8; 16],
+    n: usize,
+    bad: bool,
+}
+pub struct U8Rec;
+macro_rules! bad8 { ($($f:ident($t:ty)),*) => { $(fn $f(self, _: $t) -> Result<Option<u8>, E> { Ok(None) })* } }
+impl Serializer for U8Rec {
+    type Ok = Option<u8>;
+    type Error = E;
+    type SerializeSeq = Impossible<Option<u8>, E>;
+    type SerializeTuple = Impossible<Option<u8>, E>;
+    type SerializeTupleStruct = Impossible<Option<u8>, E>;
+    type SerializeTupleVariant = Impossible<Option<u8>, E>;
+    type SerializeMap = Impossible<Option<u8>, E>;
+    type SerializeStruct = Impossible<Option<u8>, E>;
+    type SerializeStructVariant = Impossible<Option<u8>, E>;
+    fn serialize_u8(self, v: u8) -> Result<Option<u8>, E> {
+        Ok(Some(v))
+    }
+    bad8!(serialize_bool(bool), serialize_i8(i8), serialize_i16(i16), serialize_i32(i32), serialize_i64(i64), serialize_u16(u16), serialize_u32(u32), serialize_u64(u64), serialize_f32(f32), serialize_f64(f64), serialize_char(char), serialize_str(&str), serialize_bytes(&[u8]));
+    fn serialize_none(self) -> Result<Option<u8>, E> { Ok(None) }
+    fn serialize_some<T: ?Sized + ser::Serialize>(self, _: &T) -> Result<Option<u8>, E> { Ok(None) }
+    fn serialize_unit(self) -> Result<Option<u8>, E> { Ok(None) }
+    fn serialize_unit_struct(self, _: &'static str) -> Result<Option<u8>, E> { Ok(None) }
+    fn serialize_unit_variant(self, _: &'static str, _: u32, _: &'static str) -> Result<Option<u8>, E> { Ok(None) }
+    fn serialize_newtype_struct<T: ?Sized + ser::Serialize>(self, _: &'static str, _: &T) -> Result<Option<u8>, E> { Ok(None) }
+    fn serialize_newtype_variant<T: ?Sized + ser::Serialize>(self, _: &'static str, _: u32, _: &'static str, _: &T) -> Result<Option<u8>, E> { Ok(None) }
+    fn serialize_seq(self, _: Option<usize>) -> Result<Self::SerializeSeq, E> { Err(E) }
+    fn serialize_tuple(self, _: usize) -> Result<Self::SerializeTuple, E> { Err(E) }
+    fn serialize_tuple_struct(self, _: &'static str, _: usize) -> Result<Self::SerializeTupleStruct, E> { Err(E) }
+    fn serialize_tuple_variant(self, _: &'static str, _: u32, _: &'static str, _: usize) -> Result<Self::SerializeTupleVariant, E> { Err(E) }
+    fn serialize_map(self, _: Option<usize>) -> Result<Self::SerializeMap, E> { Err(E) }
+    fn serialize_struct(self, _: &'static str, _: usize) -> Result<Self::SerializeStruct, E> { Err(E) }
+    fn serialize_struct_variant(self, _: &'static str, _: u32, _: &'static str, _: usize) -> Result<Self::SerializeStructVariant, E> { Err(E) }
+}
+impl SerializeTuple for TupRec {
+    type Ok = ([u8; 16], usize, bool);
+    type Error = E;
+    fn serialize_element<T: ?Sized + ser::Serialize>(&mut self, v: &T) -> Result<(), E> {
+        match v.serialize(U8Rec)? {
+            Some(b) if self.n < 16 => self.bytes[self.n] = b,
+            _ => self.bad = true,
+        }
+        self.n += 1;
+        Ok(())
+    }
+    fn end(self) -> Result<Self::Ok, E> {
+        Ok((self.bytes, self.n, self.bad))
+    }
+}
+macro_rules! badt { ($($f:ident($t:ty)),*) => { $(fn $f(self, _: $t) -> Result<([u8; 16], usize, bool), E> { Err(E) })* } }
+impl Serializer for RecBytes {
+    type Ok = ([u8; 16], usize, bool);
+    type Error = E;
+    type SerializeSeq = Impossible<Self::Ok, E>;
+    type SerializeTuple = TupRec;
+    type SerializeTupleStruct = Impossible<Self::Ok, E>;
+    type SerializeTupleVariant = Impossible<Self::Ok, E>;
+    type SerializeMap = Impossible<Self::Ok, E>;
+    type SerializeStruct = Impossible<Self::Ok, E>;
+    type SerializeStructVariant = Impossible<Self::Ok, E>;
+    badt!(serialize_bool(bool), serialize_i8(i8), serialize_i16(i16), serialize_i32(i32), serialize_i64(i64), serialize_u8(u8), serialize_u16(u16), serialize_u32(u32), serialize_u64(u64), serialize_f32(f32), serialize_f64(f64), serialize_char(char), serialize_str(&str), serialize_bytes(&[u8]));
+    fn serialize_none(self) -> Result<Self::Ok, E> { Err(E) }
+    fn serialize_some<T: ?Sized + ser::Serialize>(self, _: &T) -> Result<Self::Ok, E> { Err(E) }
+    fn serialize_unit(self) -> Result<Self::Ok, E> { Err(E) }
+    fn serialize_unit_struct(self, _: &'static str) -> Result<Self::Ok, E> { Err(E) }
+    fn serialize_unit_variant(self, _: &'static str, _: u32, _: &'static str) -> Result<Self::Ok, E> { Err(E) }
+    fn serialize_newtype_struct<T: ?Sized + ser::Serialize>(self, _: &'static str, _: &T) -> Result<Self::Ok, E> { Err(E) }
+    fn serialize_newtype_variant<T: ?Sized + ser::Serialize>(self, _: &'static str, _: u32, _: &'static str, _: &T) -> Result<Self::Ok, E> { Err(E) }
+    fn serialize_seq(self, _: Option<usize>) -> Result<Self::SerializeSeq, E> { Err(E) }
+    fn serialize_tuple(self, _: usize) -> Result<TupRec, E> {
+        Ok(TupRec { bytes: [0; 16], n: 0, bad: false })
+    }
+    fn serialize_tuple_struct(self, _: &'static str, _: usize) -> Result<Self::SerializeTupleStruct, E> { Err(E) }
+    fn serialize_tuple_variant(self, _: &'static str, _: u32, _: &'static str, _: usize) -> Result<Self::SerializeTupleVariant, E> { Err(E) }
+    fn serialize_map(self, _: Option<usize>) -> Result<Self::SerializeMap, E> { Err(E) }
+    fn serialize_struct(self, _: &'static str, _: usize) -> Result<Self::SerializeStruct, E> { Err(E) }
+    fn serialize_struct_variant(self, _: &'static str, _: u32, _: &'static str, _: usize) -> Result<Self::SerializeStructVariant, E> { Err(E) }
+}
+
+/// hands the 16 bytes back the way a binary codec does: as a 16-element sequence of u8
+pub struct DeBytes(pub [u8; 16]);
+struct Seq16 {
+    b: [u8; 16],
+    i: usize,
+}
+impl<'de> SeqAccess<'de> for Seq16 {
+    type Error = E;
+    fn next_element_seed<T: DeserializeSeed<'de>>(&mut self, seed: T) -> Result<Option<T::Value>, E> {
+        use serde::de::IntoDeserializer;
+        if self.i < 16 {
+            let v = self.b[self.i];
+            self.i += 1;
+            seed.deserialize(IntoDeserializer::<E>::into_deserializer(v)).map(Some)
+        } else {
+            Ok(None)
+        }
+    }
+}
+impl<'de> Deserializer<'de> for DeBytes {
+    type Error = E;
+    fn deserialize_any<V: Visitor<'de>>(self, v: V) -> Result<V::Value, E> {
+        v.visit_seq(Seq16 { b: self.0, i: 0 })
+    }
+    serde::forward_to_deserialize_any! {
+        bool i8 i16 i32 i64 i128 u8 u16 u32 u64 u128 f32 f64 char str string bytes byte_buf option unit
+        unit_struct newtype_struct seq tuple tuple_struct map struct enum identifier ignored_any
+    }
+}
+
+/// C15: 128-bit trace ids are written as their 16 little-endian bytes and read back exactly,
+/// for every u128.
+#[kani::proof]
+#[kani::unwind(18)]
+fn k1_u128_round_trip_le_bytes() {
+    let x: u128 = kani::any();
+    let (bytes, n, bad) = u128_serde::serialize(&x, RecBytes).unwrap();
+    assert!(n == 16 && !bad, "C15: written as exactly 16 u8 elements");
+    assert!(bytes == x.to_le_bytes(), "C15: little-endian byte order");
+    let back = u128_serde::deserialize(DeBytes(bytes)).unwrap();
+    assert!(back == x, "C15: 128-bit id round-trips exactly");
+}
+
+/// C18: trace and span ids survive the OpenTelemetry conversions in both directions.
+#[kani::proof]
+fn k6_otel_id_conversions_round_trip() {
+    let t: u128 = kani::any();
+    let s: u64 = kani::any();
+    let tid = TraceId::from(t);
+    let sid = SpanId::from(s);
+    let o: opentelemetry::trace::TraceId = tid.into();
+    let back: TraceId = o.into();
+    assert!(u128::from(back) == t, "C18: TraceId <-> opentelemetry TraceId is the identity");
+    let os: opentelemetry::trace::SpanId = sid.into();
+    let backs: SpanId = os.into();
+    assert!(u64::from(backs) == s, "C18: SpanId <-> opentelemetry SpanId is the identity");
+    let d: bool = kani::any();
+    let dec = if d { SamplingDecision::Sampled } else { SamplingDecision::Unsampled };
+    let flags: opentelemetry::trace::TraceFlags = dec.into();
+    assert!(flags.is_sampled() == d, "C18: sampling decision maps to the sampled flag");
+}
